@@ -77,6 +77,16 @@ Theorem C39_dialogs_partial :
 Proof. exact d_iterate_correct. Qed.
 Print Assumptions C39_dialogs_partial.
 
+(* Value() indexes buf[bufCur]: after every true Next the cursor is inside the buffer (from the initial
+   state the premise -1 <= cursor holds and is preserved), so Value never panics *)
+Theorem C39_value_in_range :
+  (forall srv limit s s' q, -1 <= m_cur s -> m_next srv limit s = (true, s', q) ->
+     0 <= m_cur s' < Model.Iter.zlen (m_buf s') /\ -1 <= m_cur s') /\
+  (forall srv limit s s' q, -1 <= x_cur s -> d_next srv limit s = (true, s', q) ->
+     0 <= x_cur s' < Model.Iter.zlen (x_buf s') /\ -1 <= x_cur s').
+Proof. split; [exact m_next_true_in_range|exact d_next_true_in_range]. Qed.
+Print Assumptions C39_value_in_range.
+
 (* non-vacuity: for every history the concrete paginating servers used by the differential
    run satisfy the contract, for each of the response kinds *)
 Example C39_messages_servers_exist :
